@@ -234,8 +234,13 @@ func (s *stubServer) serve(st *stubStream) {
 			pool = append(pool, rib)
 			if s.fib {
 				fs := spb.AFTResult_FIB_PROGRAMMED
-				if sim.Choose("flt", 6) == 1 {
+				switch sim.Choose("flt", 8) {
+				case 1:
 					fs = spb.AFTResult_FIB_FAILED
+				case 2:
+					// the entry reached the RIB but the operation is then reported as failed outright
+					fs = spb.AFTResult_FAILED
+					sim.Probe("client: FAILED after RIB_PROGRAMMED in FIB-ack mode")
 				}
 				pool = append(pool, &pendingResult{res: &spb.AFTResult{Id: op.GetId(), Status: fs}, after: rib})
 				s.terminal[op.GetId()] = fs
